@@ -4,6 +4,7 @@ import numpy as np
 import scipy.stats as ss
 from harness.common import np_seed, Infra, parse_q, fstr, frac
 from harness import spn as S
+from harness import histories as Hist
 from harness import clt as C
 from harness.build import build_from_table, table_with_py
 from harness.c01 import FAMILIES, iso_floor
@@ -54,10 +55,24 @@ def discrete_case(ctx, k, bud):
     nv = int(rs.randint(1, 5))
     ncols = nv + int(rs.randint(0, 2))
     scope = sorted(int(v) for v in rs.choice(ncols, nv, replace=False))
-    root = S.rand_spn(rs, scope, depth=int(rs.randint(1, 4)), kinds=('bern', 'cat'), share=float(rs.choice([0.0, 0.4])), clt=False)
+    with_history = (k % 3 == 1)
+    root = S.rand_spn(rs, scope, depth=int(rs.randint(1, 4)), kinds=('bern', 'cat'), share=float(rs.choice([0.0, 0.4])), clt=False,
+                      same_categories=({} if with_history else None), no_repeat=with_history)
     if not getattr(root, 'children', None):
         root = Sum(scope=list(root.scope), children=[root, S.rand_leaf(rs, root.scope[0], ('cat',))], weights=np.array([0.3, 0.7], dtype=np.float32))
     assign_ids(root)
+    hist = None
+    if with_history:
+        # the circuit went through earlier calls of the session (queries that may fill caches, EM updates, re-weighting, prune, save/load)
+        t0, o0, _, _ = S.export_net(root)
+        root, steps = Hist.apply_history(rs, root, ncols, int(rs.randint(2, 4)), count=ctx.count,
+                                         kinds=['query', 'query', 'em', 'em-step-direct', 'reassign-weights', 'prune-inplace', 'saveload', 'pickle'])
+        if not getattr(root, 'children', None):
+            return
+        assign_ids(root)
+        scope = sorted(int(v) for v in root.scope)
+        hist = dict(table0=table_with_py(t0, o0), steps=steps)
+        ctx.count('circuits-sampled-after-a-history')
     table, order, index, _ = S.export_net(root)
     dom = S.domain_of(order)
     ev = random_evidence(rs, scope, order, dom, ncols, 1)[0]
@@ -78,7 +93,7 @@ def discrete_case(ctx, k, bud):
                          max_sum_arity=arity))
     ctx.count(f'sum-arity={min(arity, 5)}')
     rep = dict(kind='c07', table=table_with_py(table, order), evidence=[None if np.isnan(t) else float(t) for t in ev],
-               seed=int(rs.randint(2 ** 31 - 1)), n=bud.n)
+               seed=int(rs.randint(2 ** 31 - 1)), n=bud.n, **(dict(history=hist) if hist else {}))
     X = np.repeat(ev[None, :], bud.n, axis=0)
     np.random.seed(rep['seed'])
     try:
@@ -128,7 +143,8 @@ def discrete_case(ctx, k, bud):
     if float(dev.max()) > bud.eps:
         o = int(np.argmax(dev))
         ctx.violation('c07-law', f'sampled frequency {emp[o]:.4f} of an outcome whose exact conditional probability is {exact[o]:.4f} '
-                                 f'(N={bud.n}, bound {bud.eps:.4f} at family-wise level {FWER}); max sum arity {arity}', replay=rep)
+                                 f'(N={bud.n}, bound {bud.eps:.4f} at family-wise level {FWER}); max sum arity {arity}'
+                                 + (f' [after the session history {Hist.brief(hist["steps"])}]' if hist else ''), replay=rep)
 
 
 def continuous_case(ctx, k, bud):
@@ -342,6 +358,11 @@ def replay(rep):
         print('exact', exact.round(4).tolist(), 'sampled', emp.round(4).tolist())
         return float(np.abs(emp - exact).max()) <= hoeffding_eps(n, 10000)
     root, order = build_from_table(r['table'])
+    if r.get('history'):
+        root, _ = build_from_table(r['history']['table0'])
+        root = Hist.replay_history(root, r['history']['steps'])
+        assign_ids(root)
+        order = S.export_net(root)[1]
     ev = np.array([np.nan if t is None else t for t in r['evidence']], dtype=np.float32)
     dom = S.domain_of(order)
     miss = [v for v in root.scope if np.isnan(ev[v])]
